@@ -21,7 +21,7 @@ REQUIRED = ['evaluations', 'verbose_modules_checked', 'plain_rows_checked', 'ite
             'colourful:ppm', 'colourful_two_colours_nonuniform', 'all_44_sizes_iterated']
 EXHAUSTIVE = {'quick': 'every module of all 44 symbol sizes through matrix_iter(verbose=True)',
               'thorough': 'every module of all 44 symbol sizes through matrix_iter(verbose=True)'}
-TIMEOUT = {'quick': 900, 'thorough': 7200}
+TIMEOUT = {'quick': 3600, 'thorough': 21600}
 
 POOL = ['red', 'blue', 'gold', 'navy', 'teal', 'orchid', '#abc', '#123456', '#fe12dc', (1, 2, 3), (200, 100, 50), (9, 8, 7),
         'green', 'purple', 'orange', 'crimson', 'khaki', '#0f0', '#00f', 'black', 'white', 'silver', 'maroon', 'tan']
